@@ -232,6 +232,203 @@ def s2_txn_leader_move(src):
 
 
 # ------------------------------------------------------------------------------------------
+# U1: one drain step of the accumulator from an arbitrary valid state (symbolic clock, creation times,
+# record counts and sequence counters)
+
+
+class _StubBuilder:
+    def __init__(self, count, closed):
+        self._count, self._closed = count, closed
+        self.state = None
+
+    def record_count(self):
+        return self._count
+
+    def closed(self):
+        return self._closed
+
+    def close(self):
+        self._closed = True
+
+    def _set_producer_state(self, pid, epoch, seq):
+        self.state = (pid, epoch, seq)
+
+
+class _Cluster:
+    def __init__(self, leaders):
+        self.leaders = leaders
+
+    def leader_for_partition(self, tp):
+        return self.leaders.get(tp)
+
+
+class _LoopStub:
+    """create_future() from the real loop; call_later() only recorded (its delay is symbolic)"""
+
+    def __init__(self, loop):
+        self._loop = loop
+        self.timers = []
+
+    def create_future(self):
+        return self._loop.create_future()
+
+    def call_later(self, delay, cb, *a):
+        self.timers.append(delay)
+
+        class _H:
+            def cancel(self_inner):
+                pass
+        return _H()
+
+
+class _Clock:
+    def __init__(self, now):
+        self.now = now
+
+    def monotonic(self):
+        return self.now
+
+
+def u1_drain_step(src, nparts, idempotent):
+    import asyncio
+    import collections
+    import aiokafka.producer.message_accumulator as MA
+    from aiokafka.errors import LeaderNotAvailableError, NotLeaderForPartitionError
+    from .common import patched
+    TTL, LINGER = 30, [0, 5][src.choice("linger", 2)]
+    now = src.zint("now", 0)
+    tps = [TopicPartition("t", p) for p in range(nparts)]
+    ign = src.choice("ignore_nodes", 4)
+    ignore = {n for n in (0, 1) if ign >> n & 1}
+    plan = {}
+    for tp in tps:
+        q = src.choice(f"queue_len_p{tp.partition}", 3)
+        plan[tp] = dict(
+            q=q,
+            leader=[0, 1, None, -1][src.choice(f"leader_p{tp.partition}", 4)],
+            muted=src.flag(f"muted_p{tp.partition}") if q else False,
+            head_is_retry=src.flag(f"head_was_sent_before_p{tp.partition}") if q else False,
+            closed=src.flag(f"head_builder_closed_p{tp.partition}") if q else False,
+        )
+    out = {}
+
+    def run():
+        loop = asyncio.get_event_loop()
+        tm = TransactionManager(None, 60000) if idempotent else None
+        if tm is not None:
+            tm.set_pid_and_epoch(77, 3)
+        with patched(MA, time=_Clock(now)):
+            ma = MA.MessageAccumulator(_Cluster({tp: plan[tp]["leader"] for tp in tps}), 16384, 0, TTL, txn_manager=tm, loop=_LoopStub(loop),
+                                       linger_ms=LINGER * 1000)
+            seq0, batches, counts = {}, {}, {}
+            for tp in tps:
+                pl = plan[tp]
+                if tm is not None:
+                    seq0[tp] = src.zint(f"seq0_p{tp.partition}", 0, 2 ** 31 - 1 - 3000000)
+                    tm._sequence_numbers[tp] = seq0[tp]
+                batches[tp] = []
+                for k in range(pl["q"]):
+                    c = src.zint(f"count_p{tp.partition}_{k}", 1, 1000000)
+                    b = MA.MessageBatch(tp, _StubBuilder(c, pl["closed"] if k == 0 else False), TTL, LINGER)
+                    ct = src.zint(f"ctime_p{tp.partition}_{k}", 0)
+                    src.assume(ct <= now, "created in the past")
+                    if k:
+                        src.assume(batches[tp][-1]._ctime <= ct, "queue in creation order")
+                    b._ctime = ct
+                    batches[tp].append(b)
+                    counts[b] = c
+                    ma._batches[tp].append(b)
+                if pl["q"] and pl["head_is_retry"]:
+                    # a head that was sent once and came back: produced by the real pop / re-enqueue
+                    h = ma._pop_batch(tp)
+                    ma.reenqueue(h)
+            seq_before = {tp: (tm.sequence_number(tp) if tm is not None else None) for tp in tps}
+            state_before = {b: b._builder.state for tp in tps for b in batches[tp]}
+            muted = {tp for tp in tps if plan[tp]["muted"]}
+            nodes, unknown = ma.drain_by_nodes(ignore_nodes=ignore, muted_partitions=muted)
+            out.update(ma=ma, tm=tm, nodes=nodes, unknown=unknown, batches=batches, counts=counts, seq_before=seq_before,
+                       state_before=state_before)
+
+    in_loop(run)
+    ma, tm, nodes, batches = out["ma"], out["tm"], out["nodes"], out["batches"]
+    drained = {tp: b for n, d in nodes.items() for tp, b in d.items()}
+    any_unknown = False
+    for tp in tps:
+        pl = plan[tp]
+        if not pl["q"]:
+            src.check(tp not in drained, f"{tp}: a batch was drained from an empty queue")
+            continue
+        head = batches[tp][0]
+        rest = batches[tp][1:]
+        queue = list(ma._batches.get(tp, ()))
+        age = now - head._ctime
+        leaderless = pl["leader"] in (None, -1)
+        if leaderless and not pl["muted"]:
+            any_unknown = True
+        if pl["muted"] or (not leaderless and pl["leader"] in ignore):
+            want = "stay"
+        elif leaderless:
+            want = "fail" if bool(age > TTL) else "stay"
+        elif not pl["closed"] and bool(age < LINGER):
+            want = "stay"
+        else:
+            want = "drain"
+        if src.twin and want == "drain":
+            want = "stay"
+        if want == "stay":
+            src.check(tp not in drained and queue == batches[tp], f"{tp}: queue changed although the head may not be sent now "
+                      "(muted / leader busy or unknown / lingering)", plan=str(pl))
+            if tm is not None:
+                src.check(tm.sequence_number(tp) == out["seq_before"][tp], f"{tp}: sequence counter moved although nothing was drained")
+        elif want == "fail":
+            src.check(tp not in drained and queue == rest, f"{tp}: expired head of a leaderless partition was not removed", plan=str(pl))
+            f = head.future
+            src.check(f.done() and isinstance(f.exception(), (NotLeaderForPartitionError, LeaderNotAvailableError)),
+                      f"{tp}: expired head of a leaderless partition was not failed with a leadership error")
+            if tm is not None:
+                src.check(tm.sequence_number(tp) == out["seq_before"][tp],
+                          f"{tp}: a batch that was failed without being sent consumed sequence numbers (the next batch leaves a gap)")
+        else:
+            src.check(drained.get(tp) is head, f"{tp}: the batch handed to the sender is not the head of the queue "
+                      "(a re-enqueued batch must go out before newer ones)", plan=str(pl))
+            src.check(queue == rest, f"{tp}: queue after the drain is not the old queue minus its head")
+            src.check(tp in nodes.get(pl["leader"], {}), f"{tp}: batch grouped under a node that is not the partition's leader")
+            if tm is not None:
+                st = head._builder.state
+                if pl["head_is_retry"]:
+                    src.check(st == out["state_before"][head], f"{tp}: a re-sent batch was stamped with a new sequence number")
+                    src.check(tm.sequence_number(tp) == out["seq_before"][tp], f"{tp}: a re-sent batch advanced the sequence counter again")
+                else:
+                    src.check(st is not None and st[0] == 77 and st[1] == 3, f"{tp}: batch not stamped with the producer id/epoch")
+                    if st is not None:
+                        src.check(st[2] == out["seq_before"][tp], f"{tp}: base sequence of the drained batch is not the partition's next sequence")
+                    src.check(tm.sequence_number(tp) == out["seq_before"][tp] + out["counts"][head],
+                              f"{tp}: sequence counter not advanced by the batch's record count")
+    src.check(bool(out["unknown"]) == any_unknown, "unknown_leaders_exist flag wrong")
+    src.check(set(drained) <= set(tps) and all(len(d) >= 1 for d in nodes.values()), "malformed drain result")
+
+
+def _u1(tier):
+    from aiokafka.producer.message_accumulator import MessageAccumulator, MessageBatch
+    hs = []
+    for nparts, idem in ([(1, True), (2, True), (1, False)] if tier == "quick" else [(1, True), (2, True), (3, True), (2, False)]):
+        hs.append(Harness(
+            name=f"U1_drain_step_{nparts}partitions{'_idempotent' if idem else ''}", fn=u1_drain_step,
+            params={"nparts": nparts, "idempotent": idem},
+            functions=[MessageAccumulator.drain_by_nodes, MessageAccumulator._pop_batch, MessageAccumulator.reenqueue,
+                       MessageBatch.expired, MessageBatch.remaining_linger, TransactionManager.sequence_number,
+                       TransactionManager.increment_sequence_number],
+            shape="U",
+            symbolic_vars="clock, creation time of every queued batch, record counts, per-partition sequence counters (unbounded z3 Ints); queue lengths 0-2, leader (node 0 / 1 / unknown / none), muted, busy nodes, linger, head sent before, head builder closed as choices",
+            bounds={"partitions": nparts, "queue_length": "0..2", "sequence": "below the wrap (see K1 / D3)"},
+            stubs=["record builder replaced by a stub (record_count, closed, _set_producer_state)", "cluster metadata stub",
+                   "time.monotonic inside the accumulator module returns the symbolic clock", "loop.call_later recorded, not scheduled"],
+            assumptions=["batches of a queue are in creation order and not created in the future"],
+            max_seconds=300 if tier == "quick" else 1500, max_paths=2000000, twin_max_paths=2000))
+    return hs
+
+
+# ------------------------------------------------------------------------------------------
 # S3: a partition without a leader for longer than the batch time-to-live: the waiting batch fails (the
 # application is told), and what is sent afterwards must still carry gap-free sequence numbers
 
@@ -343,4 +540,4 @@ _k_harnesses = harnesses
 
 
 def harnesses(tier):  # noqa: F811
-    return _k_harnesses(tier) + _s1(tier) + _s2(tier) + _s3(tier)
+    return _k_harnesses(tier) + _u1(tier) + _s1(tier) + _s2(tier) + _s3(tier)
